@@ -16,7 +16,7 @@ Proof. intros [] []. constructor; congruence. Qed.
 Lemma tabs_eq_bit s t : tabs_eq s t -> forall tb x, bit tb x t = bit tb x s.
 Proof. intros [] tb x. destruct tb; cbn [bit]; congruence. Qed.
 Lemma tabs_eq_PI s t : tabs_eq s t -> PI s -> PI t.
-Proof. intros [] []. constructor; congruence. Qed.
+Proof. intros [] []. constructor; rewrite ?te_prefs0, ?te_pcache0, ?te_allrefs0; assumption. Qed.
 Lemma tabs_eq_fresh s t x : tabs_eq s t -> fresh_id x s -> fresh_id x t.
 Proof.
   intros E [F1 F2 F3 F4 F5]. constructor.
@@ -87,16 +87,18 @@ Qed.
 Lemma step_tabs_eq ro R s s' t t' : tabs_eq s t -> tabs_eq s' t' -> step ro R s s' -> step ro R t t'.
 Proof.
   intros E E' A. pose proof (tabs_eq_bit _ _ E) as Bs. pose proof (tabs_eq_bit _ _ E') as Bs'.
+  assert (Hn : next t = next s) by apply E. assert (Hn' : next t' = next s') by apply E'.
+  assert (Hc : cbs t = cbs s) by apply E. assert (Hc' : cbs t' = cbs s') by apply E'.
   destruct A. constructor.
   - eapply tabs_eq_PI; eauto.
   - eapply tabs_eq_below; eauto.
-  - destruct E, E'. congruence.
-  - intros x Hx HR tb. rewrite Bs, Bs'. apply st_frozen0; auto. destruct E; congruence.
-  - intros x Hx tb. rewrite Bs, Bs'. apply st_shrink0. destruct E; congruence.
-  - intros x Hx tb. rewrite Bs'. destruct E'. rewrite te_cbs0. apply st_logged0. destruct E; congruence.
-  - intros x Hx. rewrite Bs'. apply st_noown0. destruct E; congruence.
-  - intros k Hk. destruct E, E'. rewrite te_cbs0, te_cbs1. auto.
-  - intros r x Hr. destruct E, E'. rewrite te_cbs0, te_cbs1. eauto.
+  - rewrite Hn, Hn'. assumption.
+  - intros x Hx HR tb. rewrite Hn in Hx. rewrite Bs, Bs'. apply st_frozen0; auto.
+  - intros x Hx tb. rewrite Hn in Hx. rewrite Bs, Bs'. apply st_shrink0. exact Hx.
+  - intros x Hx tb. rewrite Hn in Hx. rewrite Bs', Hc'. apply st_logged0. exact Hx.
+  - intros x Hx. rewrite Hn in Hx. rewrite Bs'. apply st_noown0. exact Hx.
+  - intros k Hk. rewrite Hc, Hc'. auto.
+  - intros r x Hr. rewrite Hc, Hc'. eauto.
 Qed.
 
 Lemma step_trans0 ro s s1 s2 :
@@ -138,9 +140,11 @@ Proof.
 Qed.
 Lemma nth_clamp_In : forall n l p, nth_clamp n l = Some p -> In p l.
 Proof.
-  intros n l. revert n. induction l as [|x r IH]; intros n p H; cbn [nth_clamp] in H; [discriminate|].
-  destruct n, r; try (inversion H; left; reflexivity).
-  right. eapply IH. exact H.
+  intros n l. revert n. induction l as [|x r IH]; intros n p H.
+  - destruct n; discriminate H.
+  - destruct n; simpl in H.
+    + inversion H. left. reflexivity.
+    + destruct r; [inversion H; left; reflexivity|]. right. eapply IH. exact H.
 Qed.
 
 (* a nested component that was prepared and waits in the post-render queue *)
